@@ -88,7 +88,15 @@ impl DeadCodeEliminator {
                         // unwrap single-statement blocks to preserve if-else return semantics
                         // (if-else returns values, raw blocks don't in Aelys)
                         if let TypedStmtKind::Block(inner) = &branch.kind {
-                            if inner.len() == 1 {
+                            // a declaration must stay inside its block, or it would leak
+                            // into (and shadow names of) the enclosing scope
+                            let declares = inner.first().is_some_and(|s| {
+                                matches!(
+                                    s.kind,
+                                    TypedStmtKind::Let { .. } | TypedStmtKind::Function(_)
+                                )
+                            });
+                            if inner.len() == 1 && !declares {
                                 *stmt = inner[0].clone();
                             } else {
                                 *stmt = (**branch).clone();
